@@ -160,6 +160,11 @@ func c18Main(args []string) int {
 			jobs = append(jobs, sched.Job{Scenario: n, Preempt: pre, Data: 0, Sched: sd, ShardI: s, ShardN: shards, BudgetS: budget})
 		}
 	}
+	totalBudget := 60.0
+	if common.Tier() == "thorough" {
+		totalBudget = 1200
+	}
+	sched.SpreadBudget(jobs, totalBudget, *procs, 15)
 	tot := sched.RunAll(rep, jobs, []string{"C18", "worker"}, *procs)
 	rep.Set("states", len(tot.Outcomes))
 	rep.Set("transitions", int(tot.Steps))
